@@ -31,6 +31,8 @@ def classify(msg):
     if "leak" in m or "free-block count" in m: return "C05"
     # the bitmap structure itself (page list, extension blocks) cannot be decoded: format conformance AND allocation soundness
     if m.startswith("bitmap:") or m.startswith("bitmap "): return "BM"
+    # a listing answered from the directory cache that is not the tree: the cache is not coherent with the hash tables
+    if m.startswith("cached listing"): return "C07"
     if m.startswith("cache of dir"):
         # fixed fields of a cache block (type, self pointer, parent, checksum) are format conformance; its records are coherence
         if any(x in m for x in (" parent ", "type != T_DIRC", "headerKey != self", "bad checksum")): return "C03"
